@@ -502,6 +502,26 @@ var genScenarios = map[string]func(g *Gen) []scriptStep{
 			opStep(&Op{Kind: "ListSnaps", Project: "projects/p", Size: 100}),
 		}
 	},
+	// creating a name that is taken answers ALREADY_EXISTS whatever else is wrong with the request
+	// (unknown topic, unknown or deleted dead-letter topic, bad filter) (C12)
+	"existing-name-bad-refs": func(g *Gen) []scriptStep {
+		none := "projects/p/topics/none"
+		return []scriptStep{
+			opStep(&Op{Kind: "CreateTopic", Name: sT0}), opStep(&Op{Kind: "CreateTopic", Name: sT1}),
+			subStep(&SubReq{Name: sS0, Topic: sT0}),
+			subStep(&SubReq{Name: sS0, Topic: none}),
+			subStep(&SubReq{Name: sS0, Topic: sT0, DL: dl(none, 3)}),
+			subStep(&SubReq{Name: sS0, Topic: sT0, Filter: "attributes:"}),
+			opStep(&Op{Kind: "DeleteTopic", Name: sT1}),
+			subStep(&SubReq{Name: sS0, Topic: sT1}),
+			subStep(&SubReq{Name: sS0, Topic: sT0, DL: dl(sT1, 3)}),
+			opStep(&Op{Kind: "CreateTopic", Name: sT0}),
+			opStep(&Op{Kind: "GetSub", Name: sS0}),
+			subStep(&SubReq{Name: sS1, Topic: none}),
+			subStep(&SubReq{Name: sS1, Topic: sT1}),
+			opStep(&Op{Kind: "ListSubs", Project: "projects/p", Size: 100}),
+		}
+	},
 	"dl-self-loop": func(g *Gen) []scriptStep {
 		return []scriptStep{
 			opStep(&Op{Kind: "CreateTopic", Name: sT0}),
@@ -919,7 +939,7 @@ func scenariosFor(profile string) []string {
 	case "seek":
 		return []string{"seek-revive-late", "ordered-chain", "snapshot-bystander", "snapshot-bystander-rev", "ordered-replay", "seek-retention", "snapshot-sibling-acks", "seek-delayed", "ordered-dl-seek"}
 	case "names":
-		return []string{"idle-expired-live", "topic-recreated", "recreated-twice", "snapshot-name-cross-topic"}
+		return []string{"idle-expired-live", "topic-recreated", "recreated-twice", "snapshot-name-cross-topic", "existing-name-bad-refs"}
 	case "config":
 		return []string{"filter-replaced", "idle-expired-live", "config-reset-each-field", "filter-literals", "ttl-raised", "seek-retention", "retry-replaced", "subsecond-durations"}
 	case "c15":
